@@ -387,6 +387,8 @@ class cached_custom_property(custom_property[_V, _U]):
         return value
 
     def __set__(self, instance: _U, value: _V) -> None:
+        if value is instance.__dict__.get(self._attr, self):
+            return  # `x.view += values` assigns the cached view back to itself
         super().__set__(instance, value)
         instance.__dict__[self._attr] = value
 
